@@ -639,7 +639,7 @@ def spec_table(cfg):
                 size = r["fields"][-1]["offset"] + r["fields"][-1]["size"]
             regs[r["name"]] = (r["kind"], size, bool(r.get("atomic")), r.get("read_only", True))
         for m in p.get("mems", []):
-            pb = clog2((m["depth"] + W - 1) // W)
+            pb = clog2((m["depth"] * nwords(cfg["csr_dw"], m["width"]) + W - 1) // W)
             if pb:
                 regs[m["name"] + "_page"] = ("storage", pb, False, True)
             spec[p["name"] + "_" + m["name"]] = {"regs": {}, "mem": (m["width"], m["depth"])}
@@ -1093,6 +1093,57 @@ def check_soc(cfg, seed=0, max_regs=None, max_words=None):
         if (mem.width, mem.depth) != (mwidth, depth):
             alarm("memory %s was asked as %d x %d bit, the Memory object is %d x %d bit" % (R.name, depth, mwidth, mem.depth, mem.width))
             continue
+        nsub = nwords(bw, mwidth)
+        if nsub > 1:
+            # ---- a memory word nsub CSR words wide: EVERY sub-word location of the window, distinct values -----
+            count("mem_windows_wide_x%d" % nsub)
+            if (R.name + "_page" in ex.json["csr_registers"]) != (depth * nsub > W):
+                alarm("memory %s (%d words of %d CSR words): page register presence" % (R.name, depth, nsub))
+            if depth * nsub > W:
+                continue
+            vals = {}
+            for w in range(depth):
+                old_w = tb.mem_word(mem, w)
+                for k in range(nsub):
+                    v = rng.getrandbits(32)
+                    a = base + 4 * (w * nsub + k)
+                    val, hits = do_access(a, 1, v)
+                    what = "store to memory %s word %d sub-word %d @0x%x" % (R.name, w, k, a)
+                    if hits is None:
+                        alarm(what + ": the bus hangs")
+                        continue
+                    if set(tb.name_hits(hits)) != {"mw:" + R.name}:
+                        alarm("%s: strobed %s" % (what, tb.name_hits(hits)), R_CSR8)
+                    vals[(w, k)] = v & ((1 << bw) - 1)
+                    if k < nsub - 1 and tb.mem_word(mem, w) != old_w:
+                        alarm("%s: the memory word changed before its last sub-word was written" % what, R_CSR8)
+                want_w = 0
+                for k in range(nsub):
+                    want_w = (want_w << bw) | vals.get((w, k), 0)
+                want_w &= (1 << mwidth) - 1
+                got_w = tb.mem_word(mem, w)
+                if got_w != want_w:
+                    alarm("memory %s word %d holds 0x%x after its sub-words %s were written in address order (expected 0x%x)" % (
+                        R.name, w, got_w, [hex(vals.get((w, k), 0)) for k in range(nsub)], want_w), R_CSR8)
+                if model_regs:
+                    rec["lean"].append(("wideword %d %s" % (bw, " ".join(str(vals.get((w, k), 0)) for k in range(nsub))), str(got_w)))
+            for w in range(depth):
+                word = tb.mem_word(mem, w)
+                for k in range(nsub):
+                    a = base + 4 * (w * nsub + k)
+                    val, hits = do_access(a, 0)
+                    want = (word >> (bw * (nsub - 1 - k))) & ((1 << bw) - 1)
+                    if hits is None:
+                        alarm("load from memory %s @0x%x: the bus hangs" % (R.name, a))
+                    elif val != want or (w, k) in vals and val != vals[(w, k)] & ((1 << min(bw, max(0, mwidth - bw * (nsub - 1 - k)))) - 1):
+                        alarm("load from memory %s word %d sub-word %d @0x%x returns 0x%x; written 0x%x, that part of the memory word is 0x%x" % (
+                            R.name, w, k, a, val or 0, vals.get((w, k), 0), want), R_CSR8,
+                            *((R_AXIL_RD,) if val == want else ()))
+                    if model_regs and hits is not None:
+                        rec["lean"].append(("sramwide %d %d %d %d 0 %d" % (paging, R.page, depth, nsub, (a - csr_base) // 4), "%d %d" % (w, k)))
+                        rec["lean"].append(("widesub %d %d %d %d" % (bw, nsub, word, k), str(val)))
+                    count("mem_accesses", 2)
+            continue
         paged = depth > W
         preg = R.name + "_page"
         has_preg = preg in ex.json["csr_registers"]
@@ -1281,7 +1332,7 @@ def gen_reg(rng, k, arch):
     return r
 
 
-def gen_periph(rng, name, csr_dw, max_regs=6, deck=None, paging=None, mem_prob=0.25):
+def gen_periph(rng, name, csr_dw, max_regs=6, deck=None, paging=None, mem_prob=0.25, wide_prob=0.3):
     regs = []
     for k in range(rng.randint(1, max_regs)):
         arch = deck.pop() if deck else rng.choice(ARCHETYPES)
@@ -1300,6 +1351,9 @@ def gen_periph(rng, name, csr_dw, max_regs=6, deck=None, paging=None, mem_prob=0
             if W <= 1024:
                 depth = rng.choice((W, W, W - 1) + ((W + 1, 2 * W, W + W // 2, 3 * W) if W <= 512 else ()))
         p["mems"] = [{"name": "m0", "width": rng.randint(1, csr_dw), "depth": depth}]
+        if rng.random() < wide_prob:
+            # a memory word several CSR words wide (csrw_per_memw = 2, 4, 8): sub-word order matters from 4 up
+            p["mems"] = [{"name": "m0", "width": csr_dw * rng.choice((4, 8, 4, 8, 2)), "depth": rng.choice((2, 3, 4, 8))}]
     return p
 
 
@@ -1328,7 +1382,7 @@ def gen_cfg(rng, **fixed):
         # page-sized CSR memories are slow to simulate behind AXI converters / 8-bit CSR buses: keep them to the fast buses
         fast = cfg["csr_dw"] == 32 and (cfg["bus"] == "wishbone" or (cfg["bus"] == "axi-lite" and cfg["bus_dw"] == 32))
         p = gen_periph(rng, "p%d" % k, cfg["csr_dw"], fixed.get("max_regs", 6), deck, paging=cfg["paging"] if fast else None,
-                       mem_prob=fixed.get("mem_prob", 0.25))
+                       mem_prob=fixed.get("mem_prob", 0.25), wide_prob=fixed.get("wide_prob", 0.3))
         if rng.random() < 0.3:
             loc = rng.choice((nlocs - 1, rng.randrange(nlocs), rng.randrange(min(nlocs, 8))))
             if loc not in used:
@@ -1408,7 +1462,7 @@ def guarded(fn, kind):
         try:
             return fn(args)
         except BaseException:
-            return {"crash": traceback.format_exc()[-1500:], "input": {"kind": kind, "seed": args[0]}, "alarms": [],
+            return {"crash": traceback.format_exc()[-1500:], "input": {"kind": kind, "seed": args[0], "forced": list(args[1:]) or None}, "alarms": [],
                     "stats": {}, "line": None, "real": None}
         finally:
             _unlimit()
@@ -1543,15 +1597,18 @@ def export_case(rng):
 def sweep_case(args):
     """Build a real `CSRBankArray` + `Interconnect` for a random bank set with a small address width and drive
     EVERY CSR-bus address: the set of strobed simple CSRs per address is returned in the Lean `sweep` format."""
-    seed, = args
+    seed = args[0]
+    forced = args[1:] if len(args) > 1 else None      # (csr data width, memory word = factor x CSR word)
     rng = random.Random(seed)
     from litex.soc.interconnect import csr_bus
     from migen import Module
     bw = rng.choice((8, 32, 32))
+    if forced:
+        bw = forced[0]
     aw = rng.choice((9, 10, 11))
     paging = rng.choice((0x100, 0x200, 0x400)) if aw < 11 else rng.choice((0x200, 0x400))
     npages = (1 << aw) // (paging // 4)
-    pages = rng.sample(range(npages), min(npages, rng.randint(1, 3)))
+    pages = rng.sample(range(npages), min(npages - 1 if forced else npages, rng.randint(1, 3)))
     if rng.random() < 0.3:
         pages[0] = npages - 1 if (npages - 1) not in pages else pages[0]
     src = LiteXModule()
@@ -1566,6 +1623,8 @@ def sweep_case(args):
                        mem_prob=0.5 if free else 0.0)
         for r in p["regs"]:
             r.pop("n", None)
+        if forced and k == 0 and free:
+            p["mems"] = [{"name": "m0", "width": bw * forced[1], "depth": rng.choice((2, 3, 5))}]
         if p.get("mems"):
             loc["p%d_m0" % k] = free.pop(rng.randrange(len(free)))
         if rng.random() < 0.4:
@@ -1596,16 +1655,18 @@ def sweep_case(args):
         p = asked[name]
         sizes = [r["size"] if not r.get("fields") else r["fields"][-1]["offset"] + r["fields"][-1]["size"] for r in p["regs"]]
         for m_ in p.get("mems", []):
-            pb = clog2((m_["depth"] + paging // 4 - 1) // (paging // 4))
+            pb = clog2((m_["depth"] * nwords(bw, m_["width"]) + paging // 4 - 1) // (paging // 4))
             if pb:
                 sizes.append(pb)
         blist.append(" ".join([str(loc[name])] + [str(x) for x in sizes]))
         for i, c in enumerate(rmap.simple_csrs):
             simple.append((order[name], i, c.re, c.we))
     mems = []
+    walks = []
     for k, (name, memory, mapaddr, mmap) in enumerate(ba.srams):
         m_ = asked[name]["mems"][0]
-        pb = clog2((m_["depth"] + paging // 4 - 1) // (paging // 4))
+        nsub = nwords(bw, m_["width"])
+        pb = clog2((m_["depth"] * nsub + paging // 4 - 1) // (paging // 4))
         pv = rng.randrange(1 << pb) if pb else 0
         if mmap._page is not None:
             nl.set(mmap._page.storage, pv)
@@ -1613,7 +1674,9 @@ def sweep_case(args):
             pv = 0
         port = [pt for pt in memory.ports if pt.we is not None][0]
         mems.append((k, port))
-        blist.append("M %d %d %d" % (loc[name + "_m0"], m_["depth"], pv))
+        blist.append("M %d %d %d %d" % (loc[name + "_m0"], m_["depth"], pv, nsub))
+        if not pb:
+            walks.append((name, memory, loc[name + "_m0"], m_, nsub))
     out = []
     nl.set(master.we, 1)
     nl.set(master.re, 1)
@@ -1631,9 +1694,63 @@ def sweep_case(args):
         for k, port in mems:
             if ev.eval(port.we):
                 out.append("%d:M%d:%d" % (adr, k, ev.eval(port.adr)))
+    # ---- write EVERY sub-word location of every unpaged memory window with distinct values, read all back, and
+    #      compare with the memory's own contents (oracle, independent of the model) -----------------------------
+    alarms = []
+    W = paging // 4
+    dmask = (1 << bw) - 1
+    nl.set(master.we, 0)
+    nl.set(master.re, 0)
+    nl.settle()
+    for name, memory, page, m_, nsub in walks:
+        arr = nl.ev.replaced_memories[memory]
+        depth, width = m_["depth"], m_["width"]
+        written = {}
+        for w in range(depth):
+            for k in range(nsub):
+                v = rng.getrandbits(bw) | 1
+                nl.set(master.adr, page * W + w * nsub + k)
+                nl.set(master.dat_w, v)
+                nl.set(master.we, 1)
+                nl.settle()
+                nl.tick()
+                nl.set(master.we, 0)
+                nl.settle()
+                written[(w, k)] = v
+        for w in range(depth):
+            want = 0
+            for k in range(nsub):
+                want = (want << bw) | written[(w, k)]
+            want &= (1 << width) - 1
+            got = nl.getu(arr[w])
+            if got != want:
+                alarms.append("CSR memory %s_m0 (%d x %d bit on a %d-bit CSR bus): word %d holds 0x%x after its sub-words %s were "
+                              "written in address order, expected 0x%x" % (name, depth, width, bw, w, got,
+                                                                         [hex(written[(w, k)]) for k in range(nsub)], want))
+                break
+        for w in range(depth):
+            word = nl.getu(arr[w])
+            for k in range(nsub):
+                nl.set(master.adr, page * W + w * nsub + k)
+                nl.set(master.re, 1)
+                nl.settle()
+                nl.tick()
+                nl.set(master.re, 0)
+                nl.settle()
+                val = nl.getu(master.dat_r)
+                part = (word >> (bw * (nsub - 1 - k))) & dmask
+                wr = written[(w, k)] & ((1 << max(0, min(bw, width - bw * (nsub - 1 - k)))) - 1)
+                if val != part or val != wr:
+                    alarms.append("CSR memory %s_m0 (%d x %d bit on a %d-bit CSR bus): read of word %d sub-word %d returns 0x%x, "
+                                  "0x%x was written there, that part of the memory word is 0x%x" % (name, depth, width, bw, w, k, val, wr, part))
+                    break
+            else:
+                continue
+            break
     line = "sweep %d %d %d ; %s" % (bw, aw, paging, " ; ".join(blist))
-    return {"line": line, "real": " ".join(out) or "-", "addresses": 1 << aw, "simple": len(simple),
-            "input": {"kind": "sweep", "seed": seed}}
+    return {"line": line, "real": " ".join(out) or "-", "addresses": 1 << aw, "simple": len(simple), "alarms": alarms,
+            "walked": [(m_["width"], m_["depth"]) for _, _, _, m_, _ in walks],
+            "input": {"kind": "sweep", "seed": seed, "forced": list(forced) if forced else None}}
 
 
 # ------------------------------------------------------------------------------------------------------------
@@ -1665,7 +1782,16 @@ def verdict_case(args):
     cfg["periphs"] = periphs
     b, verdict = safe_build(cfg)
     line = "accepts 32 %d %d %d ; %s" % (aw, paging, cfg["csr_dw"], " ; ".join(banks))
-    return {"line": line, "real": verdict, "input": {"kind": "verdict", "cfg": cfg}}
+    # what the build must refuse, recomputed from the arguments (independent of the model)
+    alarms = []
+    if verdict == "ok":
+        for p in periphs:
+            n_ = sum(nwords(cfg["csr_dw"], r["size"]) for r in p["regs"])
+            if n_ > paging // 4:
+                alarms.append("bank %s with %d simple CSRs of %d bit was accepted in a page of %d locations" % (p["name"], n_, cfg["csr_dw"], paging // 4))
+            if p["loc"] >= nlocs:
+                alarms.append("bank %s was accepted at CSR location %d of %d" % (p["name"], p["loc"], nlocs))
+    return {"line": line, "real": verdict, "alarms": alarms, "input": {"kind": "verdict", "cfg": cfg}}
 
 
 # ------------------------------------------------------------------------------------------------------------
